@@ -200,6 +200,20 @@ class Hub:
         w, chunks = self.pending.pop(idx)
         deliver(w.reader, chunks)
 
+    def release_chunk(self) -> bool:
+        """deliver exactly ONE chunk (or EOF) of the oldest pending reply: the kernel hands the client one segment at a time and
+        the client gets to run in between. Used as the virtual loop's on_idle so that a segmentation schedule is really observed
+        by a StreamReader (feeding all chunks at once would coalesce them in its buffer)."""
+        while self.pending and not self.pending[0][1]:
+            self.pending.pop(0)
+        if not self.pending:
+            return False
+        w, chunks = self.pending[0]
+        deliver(w.reader, [chunks.pop(0)])
+        if not chunks:
+            self.pending.pop(0)
+        return True
+
 
 @contextlib.contextmanager
 def network(peer: t.Any, defer: bool = False):
